@@ -16,9 +16,16 @@
     const v (tok… |)…                         to_constant_value on tokenised body lines
     hoymoy hoybits…                           minute of the year filter_by_hoys looks up for each hour
     count n                                   count_timesteps for a file of n lines
+    hist mode onhour la lo tz el SRC I idx… O op…      one object, a history (Model/WeaObj.lean):
+         SRC = c ts leap stM stD endM endD | d ts leap m moy…;  la… = IEEE bit patterns of the location numbers;
+         op  = oh b | loc la lo tz el | locbad | rd | setval i a b (rationals p/q)
+             | dni|dhi isColl typeOk k nvals SRC
+         answer: the observation after the construction and after every op, separated by `|`
+    epwwea leap off n dni…(n) dhi…(n) hoy…    lines of EPW.to_wea on integer cells of the hours off…off+n-1 (no hoy = all)
 -/
 import Ladybug.DrvCore
 import Ladybug.Model.Wea
+import Ladybug.Model.WeaObj
 
 open Drv Cal Wea
 
@@ -101,8 +108,145 @@ def splitBar (toks : List String) : List (List String) :=
     if t = "|" then (acc.2.reverse :: acc.1, []) else (acc.1, t :: acc.2)) ([], [])
   r.1.reverse
 
+
+/-! ### Histories on one object -/
+
+inductive HOp where
+  | op (o : Op)
+  | setval (i : Nat) (a b : Rat)
+
+def candVals (which : String) (k n : Nat) : List Rat :=
+  (List.range n).map fun i =>
+    if which = "dni" then (((i * 7 + k) % 1013 : Nat) : Rat) + (if k % 2 = 1 then (1 : Rat) / 2 else 0)
+    else (((i * 3 + k) % 409 + 2000 : Nat) : Rat) - (if k % 3 = 1 then (1 : Rat) / 4 else 0)
+
+def locOfBits (la lo tz el : String) : Option Loc :=
+  match floatBits? la, floatBits? lo, floatBits? tz, floatBits? el with
+  | some la, some lo, some tz, some el =>
+    match Py.ratOfFloatBits la.toBits, Py.ratOfFloatBits lo.toBits, Py.ratOfFloatBits tz.toBits,
+          Py.ratOfFloatBits el.toBits with
+    | some la, some lo, some tz, some el => some ⟨[], la, lo, tz, el⟩
+    | _, _, _, _ => none
+  | _, _, _, _ => none
+
+/-- Source description `c ts leap stM stD endM endD` | `d ts leap m moy…` -> (collection without values, rest). -/
+def parseSrc (toks : List String) : Option ((List Rat → Coll1) × Nat × List String) :=
+  match toks with
+  | "c" :: ts :: leap :: stM :: stD :: endM :: endD :: rest =>
+    match nats [ts, stM, stD, endM, endD], bool? leap with
+    | some [ts, stM, stD, endM, endD], some l =>
+      let ap := wholeDayAP ts l stM stD endM endD
+      let dts := contDts ap
+      some (fun v => ⟨true, ap, dts, v⟩, dts.length, rest)
+    | _, _ => none
+  | "d" :: ts :: leap :: m :: rest =>
+    match ts.toNat?, bool? leap, m.toNat? with
+    | some ts, some l, some m =>
+      match nats (rest.take m) with
+      | some ms =>
+        match dtsOfMoys l ms with
+        | some dts => if ms.length = m then some (fun v => ⟨false, AP.annual l ts, dts, v⟩, m, rest.drop m) else none
+        | none => none
+      | none => none
+    | _, _, _ => none
+  | _ => none
+
+partial def parseOps (toks : List String) : Option (List HOp) :=
+  match toks with
+  | [] => some []
+  | "oh" :: b :: rest => do
+    let b ← bool? b
+    let t ← parseOps rest
+    pure (.op (.setOnHour b) :: t)
+  | "loc" :: la :: lo :: tz :: el :: rest => do
+    let l ← locOfBits la lo tz el
+    let t ← parseOps rest
+    pure (.op (.setLoc (some l)) :: t)
+  | "locbad" :: rest => do
+    let t ← parseOps rest
+    pure (.op (.setLoc none) :: t)
+  | "rd" :: rest => do
+    let t ← parseOps rest
+    pure (.op .read :: t)
+  | "setval" :: i :: a :: b :: rest => do
+    let i ← i.toNat?
+    let a ← rat? a
+    let b ← rat? b
+    let t ← parseOps rest
+    pure (.setval i a b :: t)
+  | which :: isColl :: typeOk :: k :: nvals :: rest =>
+    if which = "dni" ∨ which = "dhi" then do
+      let ic ← bool? isColl
+      let tk ← bool? typeOk
+      let k ← k.toNat?
+      let nv ← nvals.toNat?
+      let (mk, _, rest') ← parseSrc rest
+      let t ← parseOps rest'
+      let c : Cand := ⟨ic, tk, mk (candVals which k nv)⟩
+      pure (.op (if which = "dni" then .setDni c else .setDhi c) :: t)
+    else none
+  | _ => none
+
+def showObs (status : String) (o : Obj) (idx : List Nat) : String :=
+  let ob := o.observe
+  let h := ob.header
+  let lines := match ob.lines with
+    | .error e => showE e
+    | .ok ls => atIdx ls idx fun l => s!"{l.month} {l.day} {l.milli} {l.v1} {l.v2}"
+  s!"{status} {o.dni.vals.length} {ob.timestep} {showBool ob.leap} {showBool ob.cont} {showBool ob.onHour} " ++
+    s!"{h.lat100} {h.lon100} {h.tzDeg} {h.elev10} D {atIdx ob.publicDts idx showDTr} L {lines} A {showBool (ob.dhiDts == o.dni.dts)}"
+
+def hstep (o : Obj) : HOp → Obj × String
+  | .op op =>
+    let r := step o op
+    (r.1, match r.2 with | .done => "done" | .refused _ => "refused" | .obs _ => "obs")
+  | .setval i a b =>
+    let o1 := (step o (.setDni ⟨true, true, { o.dni with vals := o.dni.vals.set i a }⟩)).1
+    let o2 := (step o1 (.setDhi ⟨true, true, { o1.dhi with vals := o1.dhi.vals.set i b }⟩)).1
+    (o2, "done")
+
+def runHist (o : Obj) (idx : List Nat) : List HOp → List String
+  | [] => []
+  | op :: rest =>
+    let r := hstep o op
+    showObs r.2 r.1 idx :: runHist r.1 idx rest
+
+def splitAt (sep : String) (toks : List String) : List String × List String :=
+  (toks.takeWhile (· ≠ sep), (toks.dropWhile (· ≠ sep)).drop 1)
+
+def handleHist (toks : List String) : String :=
+  match toks with
+  | mode :: onh :: la :: lo :: tz :: el :: rest =>
+    match mode.toNat?, bool? onh, locOfBits la lo tz el with
+    | some mode, some oh, some loc =>
+      let (src, rest1) := splitAt "I" rest
+      let (idxT, opsT) := splitAt "O" rest1
+      match parseSrc src, nats idxT, parseOps opsT with
+      | some (mk, n, []), some idx, some ops =>
+        let dni := mk ((List.range n).map (valDni mode n))
+        let dhi := mk ((List.range n).map (valDhi mode n))
+        match Obj.mk? loc dni dhi with
+        | .error e => showE e
+        | .ok o0 =>
+          let o := (step o0 (.setOnHour oh)).1
+          "ok " ++ " | ".intercalate (showObs "built" o idx :: runHist o idx ops)
+      | _, _, _ => "bad-op"
+    | _, _, _ => "bad-op"
+  | _ => "bad-op"
+
 def handle (toks : List String) : String :=
   match toks with
+  | "hist" :: rest => handleHist rest
+  | "epwwea" :: leap :: off :: n :: rest =>
+    -- cells of the hours off … off+n-1 (n direct cells, then n diffuse cells), zeros before; then the listed hours
+    match bool? leap, off.toNat?, n.toNat?, ints rest with
+    | some l, some off, some n, some xs =>
+      let pad : List Rat := List.replicate off 0
+      let dni := pad ++ (xs.take n).map fun (x : Int) => (x : Rat)
+      let dhi := pad ++ ((xs.drop n).take n).map fun (x : Int) => (x : Rat)
+      let hoys := (xs.drop (2 * n)).map Int.toNat
+      showLines (epwToWea l dni dhi hoys)
+    | _, _, _, _ => "bad-op"
   | "getdt" :: ts :: leap :: rest =>
     match ts.toNat?, bool? leap, nats rest with
     | some ts, some l, some idx =>
